@@ -83,6 +83,7 @@ type Obs struct {
 	Moved   []int    `json:"moved,omitempty"`
 	Gone    []int    `json:"gone,omitempty"`
 	Blocked bool     `json:"blocked,omitempty"`
+	NewErr  bool     `json:"new_err,omitempty"` // New returned an error: no channel, nothing to Send on
 	cur     []byte
 	moved   [][]byte
 	gone    [][]byte
@@ -481,12 +482,25 @@ func runC(in CIn, dir string) (ob Obs, lines [][][]byte, initB []byte, crash str
 	alignSecond()
 	base := time.Now().Unix()
 	ch, err := fn(pushers.WithConfig(cfg.C, &md))
-	if err != nil {
-		crash = "file channel New: " + err.Error()
+	if err != nil || ch == nil {
+		// no channel was handed out (expected exactly when the destination cannot be opened)
+		ob.NewErr = true
+		if b, err := ioutil.ReadFile(path); err == nil {
+			ob.Exists = true
+			ob.cur = b
+		}
+		ob.CurLen, ob.CurHead = len(ob.cur), head(ob.cur)
+		for range in.Bursts {
+			lines = append(lines, nil)
+		}
+		if in.Openable {
+			if rot, rerr := readRot(path, base); rerr == nil {
+				ob.Rot = rot
+			}
+		}
 		return
 	}
-	// give the writer goroutine time to open the destination
-	time.Sleep(60 * time.Millisecond)
+	// New opens the destination (rotating a full file) before it returns
 	if time.Now().Unix() != base {
 		ambiguous = true
 		return
@@ -597,9 +611,9 @@ func coqC(id int, in CIn, ob Obs, lines [][][]byte, initB []byte) string {
 			clock = append(clock, hx.CoqN(uint64(r.Sec)))
 		}
 	}
-	return fmt.Sprintf("CC (mkC %s %s %s %s %s %s %s %s %s %s)", hx.CoqN(uint64(id)), hx.CoqZ(in.Max), hx.CoqBool(in.Openable),
+	return fmt.Sprintf("CC (mkC %s %s %s %s %s %s %s %s %s %s %s)", hx.CoqN(uint64(id)), hx.CoqZ(in.Max), hx.CoqBool(in.Openable),
 		hx.CoqN(uint64(ob.Sec0)), coqRLE(initB), hx.CoqList(bs, "(N * N * list rle)"), hx.CoqList(clock, "N"),
-		hx.CoqBool(ob.Blocked), coqRLE(ob.cur), coqRot(ob.Rot))
+		hx.CoqBool(!ob.NewErr), hx.CoqBool(ob.Blocked), coqRLE(ob.cur), coqRot(ob.Rot))
 }
 
 // ---- generators ----
@@ -848,8 +862,11 @@ func main() {
 		// outside remove / rename / restart
 		w(WIn{Max: 1024, Ops: []Op{{K: "w", Lens: rep(100, 5)}, {K: "rm"}, {K: "w", Lens: rep(100, 3)}, {K: "mv"}, {K: "w", Lens: []int{100}}, {K: "re"}, {K: "w", Lens: []int{100}}}})
 		w(WIn{Max: 1024, Init: []int{512, 512}, Ops: []Op{{K: "w", Lens: []int{100}}}})
-		// channel: (c) destination cannot be opened
+		// channel: the destination cannot be opened: New must fail (before the repair: Send blocked for ever)
 		c(CIn{Max: 1024, Openable: false, Bursts: [][]int{{100}}})
+		c(CIn{Max: 4096, Openable: false, Bursts: [][]int{{100, 100}, {300}}})
+		// channel: New refuses a maximum size below 1024
+		c(CIn{Max: 512, Openable: true, Bursts: [][]int{{100}}})
 		// channel: one event per idle flush, the third does not fit any more
 		c(CIn{Max: 1024, Openable: true, Bursts: [][]int{{400}, {400}, {400}}})
 		// channel: a burst of 3000 bytes into a 1024-byte file: several rotations in one second
@@ -966,6 +983,9 @@ func main() {
 			dist[fmt.Sprintf("chan-max:%d", in.C.Max)]++
 			if ob.Blocked {
 				dist["chan:send-blocked"]++
+			}
+			if ob.NewErr {
+				dist["chan:new-returned-error"]++
 			}
 		}
 		nr := len(ob.Rot)
